@@ -191,6 +191,21 @@ example : evCallsB 0 2 (Calls.cons (.node 1 10 50 (.cons (.node 1 20 40 (.cons (
     = [⟨10, 0, 0, 1⟩, ⟨20, 0, 1, 1⟩, ⟨40, 1, 1, 1⟩, ⟨50, 1, 0, 1⟩] := by
   decide
 
+/-- A forked child continues the parent's open calls: its own stream starts
+    empty, contains no ENTRY for an inherited frame, and the return of an
+    inherited call writes exactly one EXIT record carrying the parent's depth
+    and address (for any parent state between hooks, any depth). -/
+theorem c02_fork_child_continues (cfg : Cfg) (hp : Plain cfg) (s : St) (d t : Nat) (F : Frame)
+    (rest : List Frame) (hg : Good s (d + 1)) (hfr : s.frames = F :: rest) (ht : t ≠ 0) :
+    (forkChild s).out = [] ∧
+    (exit cfg (forkChild s) t).out = [{ time := t, type := 1, depth := F.depth, addr := F.addr }] ∧
+    (exit cfg (forkChild s) t).frames = rest.map fun f => { f with written := true } := by
+  obtain ⟨h1, h2, h3, h4, h5, h6, h7, h8, h9, h10, h11⟩ := hg
+  have hF := h11 F (by simp [hfr])
+  have ht' : (t == 0) = false := by simpa using ht
+  refine ⟨rfl, ?_, ?_⟩ <;>
+    simp [exit, forkChild, h1, hfr, hF.1, exitFilterRecord, hp.fast, h4, recordTrace, ht, ht', exitRec]
+
 /-- non-vacuity: a recursive tree of depth 3 meets the hypotheses -/
 example : (Calls.cons (.node 1 10 50 (.cons (.node 1 20 40 (.cons (.node 2 25 30 .nil) .nil)) .nil)) .nil).timed ∧
     (Calls.cons (.node 1 10 50 (.cons (.node 1 20 40 (.cons (.node 2 25 30 .nil) .nil)) .nil)) .nil).height ≤ 1024 := by
